@@ -346,6 +346,29 @@ def St.killJob (st : St) (pid sig : Nat) : St :=
                asleep := st1.asleep.filter fun e => e.1 != pid }
   else st1
 
+/-- `trap … SIG; ( …; kill -s SIG $$; …; exit N ) & wait $!`: the shell traps `sig`, forks a job that sends `sig` to
+    the shell and exits later, and waits for that job (statements `ts`, `tsn`, `tw`) -/
+def St.trapWait (st : St) (sig : String) (n0 : Nat) : St :=
+  -- the shell traps `sig`, forks a job that sends `sig` to the shell and then exits, and waits for that job:
+  -- model column = a run of the `WaitTrap.lean` system (`wait_while_running` around `wait_for_any_job_or_trap`
+  -- with the job as the sender of the trapped signal) under the block scheduler; spec column = XCU 2.12
+  let n := exitStatusSeen n0
+  let st1 := st.newJob n 0
+  let pid := (st1.jobs.getLast?.map (·.2.1)).getD 0
+  let trapOut := s!"o:trap{sig.toLower}"
+  if st.useSys then
+    let t0 := TSys.start st1.sys pid [sigNo sig] [(pid, sigNo sig)]
+    let t := trun 100000 (mkChoices st.digits st.runs) (parentTurn t0)
+    let st2 := { st1 with sys := t.sys, runs := st1.runs + 1 }
+    match t.out with
+    | some (.trapped σ) => { st2 with status := σ + SIGNAL_EXIT_OFFSET, out := trapOut :: st2.out }
+    | some (.finished _ r) =>
+      -- (not reachable, `ts_driver_trapped_any_children`; what the code would do: the job is removed,
+      -- the trap action runs after the built-in)
+      { st2 with status := r.status, active := st2.active.erase pid, out := trapOut :: st2.out }
+    | _ => { st2 with status := 998 }
+  else { st1 with status := Spec.waitInterrupted (sigNo sig), out := trapOut :: st1.out }
+
 def St.stmt (st : St) : Stmt → St
   | .pf on => { st with pf := on, status := 0 }
   | .pipe neg ms =>
@@ -398,9 +421,10 @@ def St.stmt (st : St) : Stmt → St
           ((st.info.find? (fun i => i.1 == pid)).map (·.2.2)).getD false then st0
       else st0.killJob pid (sigNo sig)
   | .tw sig n =>
-    -- the helper job; the `wait` for it is interrupted by the trapped signal: trap action first, then 384+sig
-    let st1 := st.wake.newJob (exitStatusSeen n) 0
-    { st1 with status := sigNo sig + SIGNAL_EXIT_OFFSET, out := s!"o:trap{sig.toLower}" :: st1.out, fresh := st1.kept }
+    -- the helper job (naps, sends, naps, exits: virtual time passes); the `wait` for it is interrupted by the trapped
+    -- signal: trap action first, then 384+sig
+    let st1 := st.wake.trapWait sig n
+    { st1 with fresh := st1.kept }
   | .tk gap sig _ n0 =>
     let n := exitStatusSeen n0
     -- the shell traps `sig`, forks a napping job and sends it `sig` (at once, or after a foreground
@@ -416,26 +440,7 @@ def St.stmt (st : St) : Stmt → St
       else st1
     if (sig == "INT" || sig == "QUIT") && !st.monitor then { st2 with fresh := st2.fresh ++ [pid], status := 0 }
     else { st2.killJob pid (sigNo sig) with status := 0 }
-  | .ts _ sig n0 =>
-    -- the shell traps `sig`, forks a job that sends `sig` to the shell and then exits, and waits for that job:
-    -- model column = a run of the `WaitTrap.lean` system (`wait_while_running` around `wait_for_any_job_or_trap`
-    -- with the job as the sender of the trapped signal) under the block scheduler; spec column = XCU 2.12
-    let n := exitStatusSeen n0
-    let st1 := st.newJob n 0
-    let pid := (st1.jobs.getLast?.map (·.2.1)).getD 0
-    let trapOut := s!"o:trap{sig.toLower}"
-    if st.useSys then
-      let t0 := TSys.start st1.sys pid [sigNo sig] [(pid, sigNo sig)]
-      let t := trun 100000 (mkChoices st.digits st.runs) (parentTurn t0)
-      let st2 := { st1 with sys := t.sys, runs := st1.runs + 1 }
-      match t.out with
-      | some (.trapped σ) => { st2 with status := σ + SIGNAL_EXIT_OFFSET, out := trapOut :: st2.out }
-      | some (.finished _ r) =>
-        -- (not reachable, `sole_job_signal_then_exit_is_trapped`; what the code would do: the job is removed,
-        -- the trap action runs after the built-in)
-        { st2 with status := r.status, active := st2.active.erase pid, out := trapOut :: st2.out }
-      | _ => { st2 with status := 998 }
-    else { st1 with status := Spec.waitInterrupted (sigNo sig), out := trapOut :: st1.out }
+  | .ts _ sig n0 => st.trapWait sig n0
   | .ti => { st with status := 0 }
   | .gj _ => { st with status := if st.useSys then waitStatus .echild else Spec.wait none }
   | .wx => { st with status := 2 }
